@@ -129,6 +129,47 @@ def split(str, length=80):
     return [chunk for line in str.split("\n") for chunk in textwrap.wrap(line, length)]
 
 
+def _splitOctets(text, maximum):
+    """
+    Split a string into pieces that each occupy at most C{maximum} octets on
+    the wire, that is once low-level quoted and encoded as UTF-8.
+
+    L{split} measures characters; a character outside ASCII is sent as up to
+    four octets and C{NUL}, C{CR}, C{LF} and C{M_QUOTE} are sent as two, so a
+    piece that is short enough in characters can still be too long in octets.
+    Characters are never divided and none is dropped.
+
+    @param text: The string to split.
+    @type text: C{str}
+
+    @param maximum: The maximum number of octets any piece may occupy.
+    @type maximum: C{int}
+
+    @raise ValueError: If a single character of C{text} occupies more than
+        C{maximum} octets.
+
+    @return: C{list} of C{str}
+    """
+    pieces = []
+    current = ""
+    size = 0
+    for character in text:
+        octets = len(lowQuote(character).encode("utf-8"))
+        if octets > maximum:
+            raise ValueError(
+                "Maximum length leaves %d octets, too few for %r" % (maximum, character)
+            )
+        if size + octets > maximum:
+            pieces.append(current)
+            current = ""
+            size = 0
+        current += character
+        size += octets
+    if current:
+        pieces.append(current)
+    return pieces
+
+
 def _intOrDefault(value, default=None):
     """
     Convert a value to an integer if possible.
@@ -1743,14 +1784,23 @@ class IRCClient(basic.LineReceiver):
         if length is None:
             length = self._safeMaximumLineLength(fmt)
 
-        # Account for the line terminator.
-        minimumLength = len(fmt) + 2
+        # Account for the line terminator.  The limit is in octets, so measure
+        # the framing as it is sent: low-level quoted and encoded.
+        minimumLength = len(lowQuote(fmt).encode("utf-8")) + 2
         if length <= minimumLength:
             raise ValueError(
                 "Maximum length must exceed %d for message "
                 "to %s" % (minimumLength, user)
             )
-        for line in split(message, length - minimumLength):
+        available = length - minimumLength
+        # split() counts characters; divide further whatever is still too long
+        # in octets, before anything is sent.
+        lines = [
+            piece
+            for line in split(message, available)
+            for piece in _splitOctets(line, available)
+        ]
+        for line in lines:
             self.sendLine(fmt + line)
 
     def msg(self, user, message, length=None):
